@@ -210,6 +210,12 @@ impl Ctx {
             Err(e) => Err(Verdict::Violation { sig: "no-quiescence".into(), detail: format!("the server never became quiescent: {}", e) }),
         }
     }
+    /// Makes a client disappear right now: its task is cancelled before it is polled again.
+    pub async fn abort_now<T>(&self, h: &JoinHandle<T>) {
+        h.abort();
+        tokio::task::yield_now().await;
+        tokio::task::yield_now().await;
+    }
     /// Runs until quiescence or until task `label_prefix` has been polled `polls` times.
     pub async fn quiesce_until_polls(&self, label_prefix: &str, polls: u32) -> Result<(), Verdict> {
         let lp = label_prefix.to_string();
